@@ -62,6 +62,23 @@ def replay(model, obligation):
                 seg = codec.decode(rd, hdr)
                 if seg.payload != payload or seg.is_self_contained != sc or hdr.segment_length != len(buf.getvalue()):
                     fails.append('segment of %d bytes: restored %d bytes, segment_length %d vs %d on the wire' % (size, len(seg.payload), hdr.segment_length, len(buf.getvalue())))
+    if h == 'compute_crc24':
+        # a failed loop-invariant obligation has a havocked mid-loop state as its counter-model, not an input: search
+        # concretely for an input on which the real function leaves the spec (Cassandra's Crc.crc24), model values first
+        from cassandra.segment import compute_crc24
+        import random
+        rnd = random.Random(6)
+        n0 = int(model.get('length', 0) or 0)
+        datas = [0, 1, 0x80, 0xff, 0x100, 0x1ffff, 0x0123456789abcdef, (1 << 64) - 1] + [rnd.getrandbits(64) for _ in range(200)]
+        for n in [n0] + [k for k in range(0, 9) if k != n0]:
+            for d in datas:
+                d &= (1 << (8 * n)) - 1
+                got, want = compute_crc24(d, n), SP.crc24(d, n)
+                if got != want:
+                    fails.append('compute_crc24(0x%x, %d) = 0x%x, Crc.crc24 = 0x%x' % (d, n, got, want))
+                    break
+            if fails:
+                break
     if h in ('connection-segment-buffer', 'reset-buffers'):
         fails += _conn_chunking(compression)
         fails += _multi_frame_segment()
